@@ -240,13 +240,13 @@ def evaluate_z3_re_loop(
     if expr.decl().kind() != z3.Z3_OP_RE_LOOP:
         return Nothing
 
-    return Some(
-        construct_result(
-            lambda args: f"({args[0]}){{{expr.params()[0]},"
-            + f"{expr.params()[1] if len(expr.params()) > 1 else ''}}}",
-            children_results,
-        )
-    )
+    def constructor(args):
+        # The loop bounds are either parameters of the operator, as in
+        # ((_ re.loop 1 2) r), or further arguments, as in (re.loop r 1 2).
+        lower, *upper = expr.params() or args[1:]
+        return f"({args[0]}){{{lower},{upper[0] if upper else ''}}}"
+
+    return Some(construct_result(constructor, children_results))
 
 
 def evaluate_z3_seq_to_re(
